@@ -282,7 +282,7 @@ func genOnce(r *Rand, pkg string, prof Profile) *Spec {
 	if r.Chance(1, 3) {
 		nProv = 1 + r.Intn(4) // many small programs
 	}
-	shapes := []string{"random", "chain", "fan", "diamond", "syncroot", "joinsink", "layered", "layered", "layered", "tree", "tree", "ladder"}
+	shapes := []string{"random", "chain", "fan", "diamond", "syncroot", "joinsink", "layered", "layered", "layered", "tree", "tree", "ladder", "rails"}
 	shape := shapes[r.Intn(len(shapes))]
 	g.sp.Shape = shape
 	recency := 0
@@ -318,6 +318,10 @@ func genOnce(r *Rand, pkg string, prof Profile) *Spec {
 		treeRoot = g.tree(&budget, 0, fallP)
 		nProv = 0
 	}
+	rails := shape == "rails" // the ladder in its tightest form: a root, two or three rails, every cross link
+	if rails {
+		shape = "ladder"
+	}
 	if shape == "ladder" {
 		// two or three parallel chains whose steps also consume the previous step of a neighbour chain:
 		// pools that consume each other's values without any cycle between providers
@@ -325,7 +329,7 @@ func genOnce(r *Rand, pkg string, prof Profile) *Spec {
 		length := 2 + r.Intn(3)
 		prev := make([]int, chains)
 		var root int = -1
-		if r.Chance(1, 2) {
+		if r.Chance(1, 2) || rails {
 			rp := Provider{Name: fmt.Sprintf("P%d", len(g.sp.Providers)), Form: "func", Out: []int{g.newType(KPtr)}}
 			g.sp.Providers = append(g.sp.Providers, rp)
 			root = rp.Out[0]
@@ -336,12 +340,12 @@ func genOnce(r *Rand, pkg string, prof Profile) *Spec {
 			for c := 0; c < chains; c++ {
 				p := Provider{Name: fmt.Sprintf("P%d", len(g.sp.Providers)), Form: "func"}
 				if j == 0 {
-					if root >= 0 && r.Chance(2, 3) {
+					if root >= 0 && (r.Chance(2, 3) || rails) {
 						p.In = []int{root}
 					}
 				} else {
 					p.In = []int{prev[c]}
-					if r.Chance(2, 3) {
+					if r.Chance(2, 3) || rails {
 						p.In = append(p.In, prev[(c+1)%chains])
 					}
 				}
@@ -554,7 +558,7 @@ func genOnce(r *Rand, pkg string, prof Profile) *Spec {
 		}
 		if shape == "ladder" {
 			k = 10 // the sink consumes every value the ladder produces (capped by what exists)
-			if r.Chance(1, 4) {
+			if r.Chance(1, 4) && g.sp.Shape != "rails" {
 				k = 3 + r.Intn(6)
 			}
 		}
@@ -803,8 +807,12 @@ func (g *genState) variant(base []Use, k int) []Use {
 	uses := make([]Use, len(base))
 	copy(uses, base)
 	mode := r.Intn(9)
-	if (g.sp.Shape == "layered" || g.sp.Shape == "tree" || g.sp.Shape == "ladder") && r.Chance(1, 2) {
+	if (g.sp.Shape == "layered" || g.sp.Shape == "tree" || g.sp.Shape == "ladder" || g.sp.Shape == "rails") && r.Chance(1, 2) {
 		mode = 5 + r.Intn(4) // mostly asynchronous service graphs, often with synchronous roots / sinks
+	}
+	if g.sp.Shape == "rails" && r.Chance(2, 3) {
+		// rails asynchronous, root and sink mostly synchronous: the pools of the rails feed each other
+		mode = []int{7, 7, 8, 6}[r.Intn(4)]
 	}
 	if g.prof.WantAsync && mode == 0 {
 		mode = 2
